@@ -5,7 +5,7 @@ ENTRY = dict(
         title="Automatic cut finding returns a feasible, faithfully accounted cut circuit",
         prop_file="Properties/C07.v",
         corr_files=["Corr/C07Corr.v"],
-        theorems=["c07_only_markers", "c07_erase_markers", "c07_metadata", "c07_accounting", "c07_feasible",
+        theorems=["c07_only_markers", "c07_erase_markers", "c07_metadata", "c07_accounting", "c07_feasible", "c07_fails_only_if_infeasible",
                   "c07_compression_invisible", "c07_facts"],
         allowed_axioms=[],
         facts=["cf_left_wire_mult", "cf_right_wire_mult", "cf_both_wires_mult", "cf_gate_cut_uses_gate_gamma",
